@@ -22,6 +22,83 @@ from .base import HarnessError
 mon = sys.monitoring
 TOOL_ID = 4
 _SCHED_FILE = __file__
+ACTIVE = None          # the scheduler currently running (CoopLock consults it)
+_REAL_LOCK = threading.Lock
+_REAL_RLOCK = threading.RLock
+
+
+class SimDeadlock(BaseException):
+    """Every live simulated thread is blocked on a lock held by another one."""
+
+
+class CoopLock(object):
+    """threading.Lock / RLock stand-in.  Outside a scheduled run (or on a thread
+    the scheduler does not own) it is the real lock.  Inside, a thread that
+    cannot get the lock hands the baton on instead of blocking the process --
+    a parked thread may be the holder -- and a cycle of such waits is reported
+    as a deadlock instead of hanging."""
+
+    def __init__(self, reentrant=False):
+        self._real = _REAL_RLOCK() if reentrant else _REAL_LOCK()
+
+    def acquire(self, blocking=True, timeout=-1):
+        sched = ACTIVE
+        me = sched.names.get(threading.get_ident()) if sched is not None else None
+        if me is None:
+            return self._real.acquire(blocking, timeout)
+        while True:
+            if self._real.acquire(False):
+                return True
+            if not blocking or timeout == 0:
+                return False
+            sched.lock_wait(me)
+
+    def release(self):
+        self._real.release()
+        sched = ACTIVE
+        if sched is not None:
+            sched.blocked.clear()
+
+    def locked(self):
+        return self._real.locked() if hasattr(self._real, 'locked') else False
+
+    def __enter__(self):
+        self.acquire()
+        return self
+
+    def __exit__(self, *a):
+        self.release()
+
+    def _is_owned(self):
+        if hasattr(self._real, '_is_owned'):
+            return self._real._is_owned()
+        if self._real.acquire(False):
+            self._real.release()
+            return False
+        return True
+
+    def _release_save(self):
+        if hasattr(self._real, '_release_save'):
+            return self._real._release_save()
+        self._real.release()
+
+    def _acquire_restore(self, state):
+        if hasattr(self._real, '_acquire_restore'):
+            return self._real._acquire_restore(state)
+        self._real.acquire()
+
+    def _at_fork_reinit(self):
+        self._real._at_fork_reinit()
+
+    def __getattr__(self, k):
+        return getattr(self._real, k)
+
+
+def install_cooperative_locks():
+    """Called once, before the tree under test is imported: locks that code under
+    test creates (also at import time) become cooperative."""
+    threading.Lock = lambda: CoopLock(False)
+    threading.RLock = lambda: CoopLock(True)
 
 
 class BatonScheduler(object):
@@ -34,7 +111,9 @@ class BatonScheduler(object):
         self.watch = tuple(watch)
         self.max_steps = max_steps
         self.join_timeout = join_timeout
-        self.cv = threading.Condition(threading.Lock())
+        self.cv = threading.Condition(_REAL_LOCK())
+        self.blocked = set()      # threads waiting for a cooperative lock since the last release
+        self.deadlock = None
         self.current = None
         self.alive = set()
         self.names = {}
@@ -80,15 +159,41 @@ class BatonScheduler(object):
             self.current = nxt
             self.cv.notify_all()
             while self.current != me:
+                if self.deadlock is not None:
+                    raise SimDeadlock(self.deadlock)
+                self.cv.wait()
+
+    def lock_wait(self, me):
+        """*me* could not get a cooperative lock: let somebody else run."""
+        self.blocked.add(me)
+        nxt = None
+        for n in self.order:
+            if n in self.alive and n not in self.blocked:
+                nxt = n
+                break
+        with self.cv:
+            if nxt is None:
+                self.deadlock = sorted(self.blocked & self.alive)
+                self.current = None
+                self.cv.notify_all()
+                raise SimDeadlock(self.deadlock)
+            self.switches.append((self.steps, me, nxt, 'lock-wait', 0))
+            self.current = nxt
+            self.cv.notify_all()
+            while self.current != me:
+                if self.deadlock is not None:
+                    raise SimDeadlock(self.deadlock)
                 self.cv.wait()
 
     # -- thread bodies -----------------------------------------------------
     def _body(self, name, fn):
         self.names[threading.get_ident()] = name
-        with self.cv:
-            while self.current != name:
-                self.cv.wait()
         try:
+            with self.cv:
+                while self.current != name:
+                    if self.deadlock is not None:
+                        raise SimDeadlock(self.deadlock)
+                    self.cv.wait()
             fn()
         except BaseException as e:  # tasks are expected to catch their own
             self.errors[name] = e
@@ -97,12 +202,14 @@ class BatonScheduler(object):
                 self.finish_step[name] = self.steps
                 self.alive.discard(name)
                 self.names.pop(threading.get_ident(), None)
-                nxt = None
-                for n in self.order:
-                    if n in self.alive:
-                        nxt = n
-                        break
-                self.current = nxt
+                self.blocked.clear()
+                if self.deadlock is None:
+                    nxt = None
+                    for n in self.order:
+                        if n in self.alive:
+                            nxt = n
+                            break
+                    self.current = nxt
                 self.cv.notify_all()
 
     def run(self, tasks):
@@ -119,6 +226,8 @@ class BatonScheduler(object):
             mon.free_tool_id(TOOL_ID)
             mon.use_tool_id(TOOL_ID, 'clastic-sim')
         hung = []
+        global ACTIVE
+        ACTIVE = self
         try:
             mon.register_callback(TOOL_ID, mon.events.PY_START, self._on_start)
             mon.register_callback(TOOL_ID, mon.events.LINE, self._on_event)
@@ -144,6 +253,7 @@ class BatonScheduler(object):
             for evn in (mon.events.PY_START, mon.events.LINE, mon.events.INSTRUCTION):
                 mon.register_callback(TOOL_ID, evn, None)
             mon.free_tool_id(TOOL_ID)
+            ACTIVE = None
         if hung:
             raise HarnessError('threads did not finish under the schedule: %r at step %d' % (hung, self.steps))
         return self
